@@ -108,6 +108,9 @@ def scalars(tier):
         S("str", ("regex", "a{2}")), S("str", call("ab"), ("regex", "a")),
         S("str", ("regex", "\\d\\w")), S("str", ("regex", "^[a-c][^\\d]$")),
         S("str", ("regex", "[^a-c]x")), S("str", ("regex", "[^\\w][^ab]")), S("str", ("regex", "[^x-~]{2}")),
+        # negated classes whose complement lies wholly in the punctuation of the default alphabet
+        S("str", ("regex", "^[^\\w -]$")), S("str", ("regex", "[^a-zA-Z0-9_ -]{1,2}")),
+        S("str", ("regex", "^\\w[^\\w ]\\d$")),
         S("str", call("ab"), ln(2)), S("str", call("ab"), ("alphabet", "abc")),
         S("str", call("ab"), ("contains", "b")), S("str", call("ab"), ln(1, 3)),
         S("str", ln(2), ("alphabet", "")), S("str", ("contains", "c"), ("alphabet", "ab")),
